@@ -31,14 +31,14 @@ type Addr struct {
 var lpCanon = map[string]string{
 	"user": "user",
 	"jose": "jos\u00e9",
-	"jx":   "\u01f0x",     // LATIN SMALL LETTER J WITH CARON: no precomposed capital exists
+	"jx":   "\u01f0x",      // LATIN SMALL LETTER J WITH CARON: no precomposed capital exists
 	"fw":   "\uff41\uff42", // fullwidth a b (a local part is free-form UTF-8)
 }
 var labCanon = map[string]string{
 	"ex":  "example",
 	"e1":  "caf\u00e9",
-	"ss":  "stra\u00dfe",   // sharp s is PVALID in IDNA2008
-	"fs":  "\u03b1\u03c2",  // final sigma is PVALID in IDNA2008
+	"ss":  "stra\u00dfe",  // sharp s is PVALID in IDNA2008
+	"fs":  "\u03b1\u03c2", // final sigma is PVALID in IDNA2008
 	"jc":  "\u01f0a",
 	"com": "com",
 }
@@ -225,6 +225,23 @@ var symStr = map[string]string{
 	"dot": ".", "sp": " ", "del": "\u007f", "c80": "\u0080", "c81": "\u0081", "cm": "\u0301",
 	"i130": "\u0130", "ss": "\u00df", "fs": "\u03c2", "fw": "\uff21",
 	"ace": "xn--9ca", "ACE": "XN--9CA", "pm": "postmaster", "PM": "POSTMASTER",
+	// comparison layer (Sym2 of Address.tla): lower-casing and case folding disagree on these
+	"sg": "\u03c3", "SG": "\u03a3", "li": "i", "es": "s", "ls": "\u017f", "kk": "k", "KS": "\u212a",
+}
+
+// LowerSym of Address.tla; checked against strings.ToLower by mustLowerSym.
+var lowerSym = map[string]string{
+	"l": "l", "u": "l", "sg": "sg", "SG": "sg", "fs": "fs", "li": "li", "i130": "li",
+	"es": "es", "ls": "ls", "kk": "kk", "KS": "kk", "at": "at", "dot": "dot", "ace": "ace", "ACE": "ace",
+}
+
+func mustLowerSym() {
+	for k, want := range lowerSym {
+		got := tokens(strings.ToLower(symStr[k]))
+		if len(got) != 1 || got[0] != want {
+			panic(fmt.Sprintf("addresscheck table: strings.ToLower(%s) reads back as %v, Address.tla says %s", k, got, want))
+		}
+	}
 }
 
 var symOrder []string // longest concrete string first
